@@ -36,6 +36,8 @@ func main() {
 		err = c01Main(*seed, *n, *out, self)
 	case "c01child":
 		err = c01Child(*replay)
+	case "c03":
+		err = c03Main(*seed, *n, *out, *repo, *gen, *replay)
 	case "c13race":
 		err = c13Race(*seed, *n)
 	case "c13":
